@@ -2,4 +2,4 @@
 # usage: mk.sh target.vo ...
 cd /verif && PYTHONPATH=/repo/src:/verif/tools /venv/bin/python -c "
 import vf, sys, time
-t=time.time(); ok, log = vf.coq_make(sys.argv[1:]); print('OK' if ok else 'FAIL', round(time.time()-t,1)); print(log[-1800:] if not ok else log[-300:])" "$@"
+t=time.time(); import os; ok, log = vf.coq_make(sys.argv[1:], timeout=int(os.environ.get('MK_TIMEOUT','240'))); print('OK' if ok else 'FAIL', round(time.time()-t,1)); print(log[-1800:] if not ok else log[-300:])" "$@"
